@@ -833,3 +833,70 @@ func (b *Body) excludesMissingOnEdge(cond ssa.Value, succ int, vals map[ssa.Valu
 	}
 	return false
 }
+
+// ---- R-NULLSPELL --------------------------------------------------------------------
+
+func init() {
+	register(&Rule{ID: "R-NULLSPELL", Doc: "JSON null has two spellings inside a document (a nil node for a decoded null, a non-nil node whose text is `null` for a null stored by add/replace): in the test handler every verdict taken on the side where the looked-up node is non-nil consults that node's content (a boolean lazyNode method with the node as receiver or argument) — it is never decided from the expected value alone, which would make a stored null differ from null",
+		Run: ruleNullSpell, Min: map[string]int{"v5": 2}})
+}
+
+func ruleNullSpell(c *Ctx) {
+	b := c.V5
+	if b == nil {
+		return
+	}
+	l := c.L
+	ai := b.findApply()
+	if ai == nil || ai.handlers["test"] == nil {
+		l.add("R-NULLSPELL", "v5", "anchor test handler", "", Undecided, "test handler not found", false)
+		return
+	}
+	fn := ai.handlers["test"]
+	var val ssa.Value
+	for _, g := range containerCalls(fn, "get") {
+		for _, ex := range extractOf(g.Value(), 0) {
+			val = ex
+		}
+	}
+	if val == nil {
+		l.add("R-NULLSPELL", "v5", "anchor looked-up node", b.rel(fn.Pos()), Undecided, "the test handler does not look the target up with container.get", false)
+		return
+	}
+	tests := nilTests(fn, val)
+	if len(tests) == 0 {
+		l.add("R-NULLSPELL", "v5", "test handler: the looked-up node is compared with nil", b.rel(fn.Pos()), Discharged, "no nil test on the looked-up node: every verdict goes through the comparison methods, which handle both spellings", true)
+	}
+	n := 0
+	for _, t := range tests {
+		for _, r := range liveReturns(fn) {
+			if !edgeDominates(t.Blk, t.NonNilSucc, r.Block()) {
+				continue
+			}
+			n++
+			key := fmt.Sprintf("test handler: verdict #%d on the non-nil side consults the looked-up node's content", n)
+			consults := false
+			for _, e := range b.controlDepsTransitive(r.Block()) {
+				iff, ok := e.From.Instrs[len(e.From.Instrs)-1].(*ssa.If)
+				if !ok {
+					continue
+				}
+				cv, _ := stripNot(iff.Cond)
+				call, ok := cv.(*ssa.Call)
+				if !ok || !isLazyNodeBoolMethod(&call.Call) {
+					continue
+				}
+				for _, a := range call.Call.Args {
+					if a == val {
+						consults = true
+					}
+				}
+			}
+			if consults {
+				l.add("R-NULLSPELL", "v5", key, b.posOf(r), Discharged, "controlled by a comparison method applied to the looked-up node", true)
+			} else {
+				l.add("R-NULLSPELL", "v5", key, b.posOf(r), Violated, "this verdict is reached with a non-nil looked-up node without looking at its content: a null stored by an earlier add/replace (a non-nil node whose text is `null`) is treated as different from null, so `add /b null` followed by `test /b null` fails", true)
+			}
+		}
+	}
+}
